@@ -1267,6 +1267,19 @@ func (x *Exec) step(st *State, b *ssa.BasicBlock, idx int, in ssa.Instruction) b
 		st.assume(tNot(tIsNil(m.L[0])))
 		x.monitorAccess(st, in.Map, true, &k, &v, "true", in.Pos())
 		x.mapUpdate(st, m, k, v, describe(in.Map), in.Pos())
+	case *ssa.Index:
+		// s[i] of a string: the code of its i-th character (strings are sequences of code points in the
+		// model); indexing a string outside its length panics
+		if bt, ok := in.X.Type().Underlying().(*types.Basic); ok && bt.Info()&types.IsString != 0 {
+			sv := x.value(st, in.X).L[0]
+			i := x.value(st, in.Index)
+			g := tAnd("(<= 0 "+i.L[0]+")", "(< "+i.L[0]+" (str.len "+sv+"))")
+			x.oblige(st, "index", describe(in.X), g, x.spec.Props, "string index in range", in.Pos())
+			st.assume(g)
+			x.setReg(st, in, Val{T: in.Type(), L: []Term{"(str.to_code (str.at " + sv + " " + i.L[0] + "))"}})
+		} else {
+			panic(unsupported("instruction *ssa.Index on an array value"))
+		}
 	case *ssa.Lookup:
 		x.lookup(st, in)
 	case *ssa.TypeAssert:
